@@ -280,3 +280,14 @@ Definition enc_token (t : token) : N :=
   end.
 Definition toy_H0 (name : bytes) : N := 2 * enc_bytes name + 2.             (* even, >= 2 *)
 Definition toy_HC (acc : N) (t : token) : N := 2 * toy_pair acc (enc_token t) + 1.   (* odd, >= 3 *)
+
+(* ---------- concrete instances used by the non-vacuity examples ---------- *)
+
+(* cc -c a.c -o a.o with one environment entry and a makefile-style dependency file *)
+Definition ex_def : cdef :=
+  mkCdef [67;49] [[97;46;99]; [104]] [[97;46;111]] false true false []
+         [[99;99]; [45;99]; [97;46;99]] [([75], [86])] [[97;46;100]] 1 true false.
+
+(* a stored successful result with one output *)
+Definition ex_info (size : N) : fileinfo := mkFI 1 7 33188 size 100 0 (repeat 0 32).
+Definition ex_stored : stored := mkStored 5 false 42 (mkBV VSuccessfulCommand 0 [ex_info 10] []).
